@@ -112,7 +112,14 @@ GridCases ==
      bytes |-> IF q % 2 = 0 THEN EncSct(s) ELSE EncSctList(<<s>>), want |-> <<q>>, extra |-> 0]]
 GridSct(q) == LET ix == GridIdx[q] IN
   [ver |-> 0, id |-> Id32(2), ts |-> Tss[2], ext |-> SubSeq(<<0, 0, 1, 0>>, 1, ix[1]), sig |-> Sig(<<ix[2], ix[3]>>, Fill(q, ix[4]))]
-ASSUME TLCSet(1, LongTailCases \o GridCases \o MaxCases \o PairSweep \o ManyCases \o SigSweep \o SingleCases \o ListCases \o BeyondEntryCases \o BeyondListCases \o CutCases \o InnerCases)
+ShortDeclCases ==
+  LET m == EncSct([ver |-> 0, id |-> Id32(1), ts |-> Tss[2], ext |-> <<>>, sig |-> Sig(<<4, 3>>, <<>>)])     \* 2 + 47 bytes
+      c == SubSeq(m, 3, Len(m))  other == EncSct(Scts[2]) IN
+  Concat([d \in 1..5 |->
+    LET decl == <<0, 1, 10, 45, 46>>[d]  body == BE16(decl) \o c \o other IN
+    << Mk("beyondentry", ListFn, BE16(Len(body)) \o body, <<>>, 0),
+       Mk("inner", OneFn, BE16(decl) \o c \o other, <<>>, 0) >>])
+ASSUME TLCSet(1, LongTailCases \o ShortDeclCases \o GridCases \o MaxCases \o PairSweep \o ManyCases \o SigSweep \o SingleCases \o ListCases \o BeyondEntryCases \o BeyondListCases \o CutCases \o InnerCases)
 Cases == TLCGet(1)
 N == Len(Cases)
 
